@@ -49,6 +49,15 @@ Proof. intros h Hne. apply has_tasks_spec. rewrite slice_runs. destruct h; [cong
 Lemma nonempty_faithful mw iv bd : faithful (mkCfg mw iv bd nonempty).
 Proof. intros [|t h] H; [reflexivity | discriminate]. Qed.
 
+Lemma honest_exactly_once mw iv bd sh n sched : honest sh ->
+  let s := run (container_cfg mw iv bd sh) (init n) sched in
+  Permutation (accepted s) (done_tasks s ++ places s).
+Proof. intros H. apply (conservation_perm (container_cfg mw iv bd sh)), run_inv, faithful_iff_honest, H. Qed.
+
+Lemma slice_faithful mw iv bd :
+  faithful (container_cfg mw iv bd slice_shape) /\ (forall h, has_tasks (slice_shape h) = nonempty h).
+Proof. split; [apply faithful_iff_honest, slice_honest | exact slice_runs]. Qed.
+
 (* every container of the family the correspondence run uses keeps the contract - whatever it
    returns for "nothing added", and although some of its batches are zero values *)
 Lemma family_honest k e : honest (shape_of k e).
